@@ -917,9 +917,12 @@ def t_other_ns(draw):
 def t_other_version(draw):
     new = draw(image_st())
     base = draw(st.sampled_from(SIMPLE)) + draw(st.sampled_from(['.', '.TXT', '']))
-    v1, v2 = draw(st.sampled_from([('1', '2'), ('1', '32767'), ('2', '1'), (None, '1'), ('1', None), ('1', '01')]))
+    v1, v2 = draw(st.sampled_from([('1', '2'), ('1', '32767'), ('2', '1'), (None, '1'), ('1', None), ('1', '01'), ('01', '1'), ('2', '002'), ('10', '010'), ('1', '0001')]))
+    # optionally a third add that repeats the first or the second spelling byte for byte (a real duplicate, whatever sorts in between)
+    third = draw(st.sampled_from([None, None, 0, 1]))
+    vs = [v1, v2] + ([(v1, v2)[third]] if third is not None else [])
     ops = []
-    for j, v in enumerate((v1, v2)):
+    for j, v in enumerate(vs):
         ops.append({'op': 'file', 'ns': 'iso', 'path': '/' + base + ('' if v is None else ';' + v), 'rr': ('v%d' % j) if new.get('rr') else None})
     return {'h': 'other-version', 'new': new, 'ops': ops}
 
